@@ -191,7 +191,9 @@ def classify(gpath, what, name, raw):
                     return "mandatory", top, desc
                 if name in OPT_ENTITY_ATTRS:
                     return "optional", top, {"nodes": {node}, "types": set(), "exact": True}
-                return "unclassified", top, desc
+                # any other attribute (counts, origin, rotation, ...) says something about the entity carrying it, not about
+                # the entities stored under it
+                return "unclassified", top, {"nodes": {node}, "types": set(), "exact": True}
             if name == "Type":
                 return "mandatory", top, desc
             if name == "PropertyGroups":
